@@ -372,6 +372,9 @@ class _Ref:
             o = 0 if o is None else o
         if lim == "bad" or o == "bad":
             raise _Bad()
+        for a in (spec.get("limit"), off):
+            if isinstance(a, dict) and a["f"] == "undef":
+                raise _Bad()  # an undefined limit/offset: the property prescribes nothing (the engine reads it as 0)
         idx = [i for i in range(n) if max(o, 0) <= i and (lim is None or i < o + lim)]
         self.pos[key] = min(max(o, 0), n) + len(idx)
         vis = [xs[i] for i in idx]
@@ -633,7 +636,7 @@ def case_tags(case, obs):
 class TemplateStream(Stream):
     """shared behaviour of the template-level streams"""
 
-    parallel = True
+    parallel = False
     prefix = ""
 
     def impl(self, case):
@@ -875,7 +878,7 @@ class ChainStream(TemplateStream):
             out.append({"ss": False, "data": {"a": seq_data(n)}, "nodes": nodes})
         # random longer chains with several keys, tablerows and collection kinds
         rng = ctx.rng_for("chain")
-        for _ in range(ctx.scale(500, 6000)):
+        for _ in range(ctx.scale(500, 15000)):
             na, nb = rng.range(0, 8), rng.range(0, 8)
             data = {"a": coll(rng.choice(["seq", "mapping", "range", "seq"]), na), "b": seq_data(nb, 21), "d": ["ns", {"a": seq_data(3, 31)}]}
             nodes = []
@@ -943,7 +946,7 @@ class NestStream(TemplateStream):
     def cases(self, ctx):
         rng = ctx.rng_for("nest")
         out = []
-        for _ in range(ctx.scale(700, 8000)):
+        for _ in range(ctx.scale(700, 25000)):
             sizes = {"a": rng.range(0, 5), "b": rng.range(0, 4), "c": rng.range(1, 3), "d.a": 2}
             data = {
                 "a": coll(rng.choice(["seq", "mapping", "range"]), sizes["a"]),
@@ -1014,7 +1017,7 @@ class SliceStream(Stream):
 
     name = "slice"
     exhaustive = True
-    parallel = True
+    parallel = False
 
     def cases(self, ctx):
         L = ctx.scale(6, 8)
@@ -1238,4 +1241,8 @@ class IterStream(Stream):
 
 
 def streams(ctx):
-    return [SliceStream(), DropStream(), IterStream(), For1Stream(), TablerowStream(), ChainStream(), NestStream(), MalformedStream()]
+    sts = [SliceStream(), DropStream(), IterStream(), For1Stream(), TablerowStream(), ChainStream(), NestStream(), MalformedStream()]
+    for st in sts:
+        # the quick tier is ~10 s of single-core work; a process pool only pays off in the thorough tier
+        st.parallel = ctx.tier == "thorough" and st.name in ("slice", "for1", "tablerow", "chain", "nest")
+    return sts
